@@ -113,7 +113,7 @@ def run(shard):
             except Exception as e:
                 H.count("skipped:encode:" + type(e).__name__)
         if ab and a is not b:
-            H.distinct(hashlib.md5((label + repr(a)[:300]).encode("utf-8", "replace")).digest())
+            H.distinct(hashlib.md5((label + H.srepr(a)[:300]).encode("utf-8", "replace")).digest())
         return ab
 
     IMMUTABLE = (str, bytes, int, float, complex, bool, type(None), type(Ellipsis))
@@ -170,7 +170,7 @@ def run(shard):
                          "%s: Constant(%s) == Constant(%s) is %r, reference partition says %r" % (
                              label, H.short(values[i], 80), H.short(values[j], 80), got, want))
                 if i != j and (want or type(values[i]) is not type(values[j])):
-                    H.distinct("%s|%r|%r" % (label, values[i], values[j]))
+                    H.distinct("%s|%s|%s" % (label, H.srepr(values[i]), H.srepr(values[j])))
         # transitivity
         n = len(values)
         for i in range(n):
